@@ -614,6 +614,9 @@ static void check_result(int ri, int result, char type, int count, int ttl, cons
 		unsigned rcode = rr.flags & dw::F_RCODE;
 		bool tc = rr.flags & dw::F_TC;
 		bool for_me = (rcode || tc) ? (rr.question_match || !rr.question_present) : rr.question_match;
+		// a question section that is syntactically odd (reserved label bits, which the resolver reads as a pointer) may be
+		// ignored or may fail the request; it can never explain a success
+		if (!for_me && rr.odd && !rr.question_present && !rr.bounds_error && result != DNS_ERR_NONE) { any_addressed = true; explained = true; probe("odd-question"); break; }
 		if (!for_me) { why_not = "a reply with the right id was sent, but its question is '" + std::string(rr.question_present ? "different" : "missing") + "'"; continue; }
 		any_addressed = true;
 		if (result != DNS_ERR_NONE) {
